@@ -122,6 +122,7 @@ pub fn wide_selfcheck() -> Result<u64, String> {
 
 fn one<T: StrApi>(config: &str, x: &T, zx: &Z, tr: usize, combo: usize, w: usize, l: &mut Local) {
     let ti = T::ti();
+    l.enter(config, TRAITS[tr], || vec![vengine::hex(&x.le()), combo_spec(tr, combo), w.to_string()], (combo as u64) << 32 | w as u64);
     let e: Expect<Z> = Expect::Is(Obs::S(expected(zx, ti, tr, combo, w)));
     let o = match std::panic::catch_unwind(std::panic::AssertUnwindSafe(|| Obs::S(fmt_one(x, tr, combo, w)))) {
         Ok(o) => o,
